@@ -150,4 +150,19 @@ STATUS = {
               "branches and single/multi-asset variants mirror each other. Sound sign abstraction under the stated positive-parameter assumptions; "
               "the numeric value of the probability is not decided."),
         note=TRUST + "Assumes demand, scale, order_ratio, n > 0 and decay in (0, 1]."),
+    "C18": dict(
+        claimed=True,
+        technique="forwarding conformance of the PyO3 wrappers on their MIR: expected-callee table keyed by the public Python names, name-role and qualifier-token agreement, constant tables of the conversions, tuple-layout vs documentation, signature scan",
+        text=("Decides that the Python classes are literal forwarders: each wrapper calls exactly the expected core function with arguments bound by name, "
+              "reads the side/quantity its name says, converts bool<->Side and Status->u8 as documented, lays records out as documented, takes only core "
+              "integer types (so out-of-range ints are rejected by PyO3 before the body), maps OrderError to ValueError without own effects, seeds and uses "
+              "the generator only in new/step, and forwards snapshots. The compiled extension is not executed under CPython."),
+        note=TRUST + "PyO3 0.20 extraction semantics (OverflowError on out-of-range ints) are trusted."),
+    "C19": dict(
+        claimed=True,
+        technique="translation validation between documentation tables (Rust doc comments, Python docstrings parsed with ast/regex) and the element/key/column origins of the builders extracted from MIR",
+        text=("Static conformance check, exactly as the property names it: for all four array builders, both market-data dictionaries and both data-frame "
+              "helpers the documented layout (index -> quantity, key -> series, column -> field) equals the layout the code builds, element by element, "
+              "including lengths and the per-level loop. Array contents for concrete states are not computed."),
+        note=TRUST + "Decoding of format! templates from the compiled constant (literal pieces only)."),
 }
